@@ -182,6 +182,78 @@ Section JoinSched.
           destruct S as [-> [[W' _] | (_ & _ & Hn)]]; [|contradiction]. apply IH. right. split; [exact N'|]. exists k. rewrite app_nil_r.
           split; [exact Hk | right; split; [now apply dedupe_waiting | exact Aq]].
   Qed.
+
+  (* ---- any number of handlers ---- *)
+  Lemma nth_replace_same i p : forall ps q, nth_error ps i = Some q -> nth_error (replace_nth i p ps) i = Some p.
+  Proof. induction i as [|i IH]; intros [|h t] q H; cbn in *; try discriminate; [reflexivity | now apply (IH t q)]. Qed.
+  Lemma nth_replace_other i p : forall ps j, j <> i -> nth_error (replace_nth i p ps) j = nth_error ps j.
+  Proof.
+    induction i as [|i IH]; intros [|h t] j Hj; cbn; try reflexivity.
+    - destruct j; [congruence | reflexivity].
+    - destruct j; [reflexivity|]. cbn. apply IH. congruence.
+  Qed.
+  Definition harmless_halt (p : prog) : Prop := match p with Halt o => downs o = [] | Do _ _ => True end.
+  Lemma waiting_halt p : waiting p -> harmless_halt p.
+  Proof. destruct 1; cbn; auto. Qed.
+  Lemma atmost_halt k p : atmost k p -> harmless_halt p.
+  Proof. destruct 1; cbn; auto. Qed.
+  Lemma final_outs_quiet ps : Forall harmless_halt ps -> downs (final_outs ps) = [].
+  Proof.
+    induction 1 as [|p t Hp _ IH]; [reflexivity|]. unfold final_outs in *. cbn [flat_map]. rewrite downs_app, IH, app_nil_r.
+    destruct p; cbn in *; [exact Hp | reflexivity].
+  Qed.
+
+  Definition jinvN (st : dstate) (ps : list prog) (acc : list out) : Prop :=
+    (Forall waiting ps /\ downs acc = []) \/
+    (nstored st /\ exists k w, (length (downs acc) + k <= 1)%nat /\
+       (exists p, nth_error ps w = Some p /\ atmost k p) /\
+       (forall j p, j <> w -> nth_error ps j = Some p -> waiting p)).
+
+  Lemma jinvN_harmless st ps acc : jinvN st ps acc -> Forall harmless_halt ps.
+  Proof.
+    intros [(W & _) | (_ & k & w & _ & (pw & Hw & Aw) & Ho)].
+    - eapply Forall_impl; [|exact W]. apply waiting_halt.
+    - apply Forall_forall. intros p Hin. apply In_nth_error in Hin. destruct Hin as [j Hj].
+      destruct (Nat.eq_dec j w) as [->|Hne]; [rewrite Hw in Hj; injection Hj as <-; eapply atmost_halt; exact Aw | eapply waiting_halt, Ho; eauto].
+  Qed.
+  Lemma jinvN_bound st ps acc : jinvN st ps acc -> (length (downs acc) <= 1)%nat.
+  Proof. intros [(_ & Hd) | (_ & k & w & Hk & _)]; [rewrite Hd; cbn; lia | lia]. Qed.
+
+  Theorem interleaveN_join_at_most_one : forall fuel sched st ps acc,
+    jinvN st ps acc -> (length (downs (snd (interleaveN apps sched fuel st ps acc))) <= 1)%nat.
+  Proof.
+    induction fuel as [|fuel IH]; intros sched st ps acc Hinv; cbn [interleaveN]; [cbn [snd]; now apply (jinvN_bound st ps)|].
+    destruct (choose (hd 0%nat sched) ps) as [i|].
+    2:{ cbn [snd]. rewrite downs_app, (final_outs_quiet ps (jinvN_harmless _ _ _ Hinv)), app_nil_r. now apply (jinvN_bound st ps). }
+    destruct (nth_error ps i) as [[o0 | o k]|] eqn:Ei; try (cbn [snd]; now apply (jinvN_bound st ps)).
+    (* the handler at position i performs operation o *)
+    destruct Hinv as [(W & Hd) | (Hs & kk & w & Hk & (pw & Hw & Aw) & Ho)].
+    - (* nobody has inserted the nonce yet *)
+      assert (Wi : waiting (Do o k)) by (rewrite Forall_forall in W; apply W; eapply nth_error_In; exact Ei).
+      pose proof (step_waiting st o k Wi) as S. destruct (exec apps st o) as [[st' r] e]. destruct S as [-> [[W' _] | (S' & A' & _)]]; apply IH.
+      + left. rewrite app_nil_r. split; [|exact Hd]. apply Forall_forall. intros p Hin. apply In_nth_error in Hin. destruct Hin as [j Hj].
+        destruct (Nat.eq_dec j i) as [->|Hne].
+        * rewrite (nth_replace_same i _ ps _ Ei) in Hj. injection Hj as <-. destruct (_ && _); [now constructor | exact W'].
+        * rewrite (nth_replace_other i _ ps j Hne) in Hj. rewrite Forall_forall in W. apply W. eapply nth_error_In; exact Hj.
+      + right. split; [exact S'|]. exists 1%nat, i. rewrite app_nil_r, Hd. cbn [length]. split; [lia|]. split.
+        * eexists. split; [apply (nth_replace_same i _ ps _ Ei)|]. destruct (_ && _); [now constructor | exact A'].
+        * intros j p Hne Hj. rewrite (nth_replace_other i _ ps j Hne) in Hj. rewrite Forall_forall in W. apply W. eapply nth_error_In; exact Hj.
+    - destruct (Nat.eq_dec i w) as [->|Hne].
+      + (* the handler that inserted the nonce *)
+        rewrite Hw in Ei. injection Ei as ->.
+        pose proof (step_atmost st o k kk Aw) as S. pose proof (exec_nstored st o Hs) as N'. destruct (exec apps st o) as [[st' r] e]. cbn in N'.
+        destruct S as (k' & A' & Hk'). apply IH. right. split; [exact N'|]. exists k', w. rewrite downs_app, app_length. split; [lia|]. split.
+        * eexists. split; [apply (nth_replace_same w _ ps _ Hw)|]. destruct (_ && _); [now constructor | exact A'].
+        * intros j p Hj Hp. rewrite (nth_replace_other w _ ps j Hj) in Hp. eapply Ho; eauto.
+      + (* another handler: its insert fails, it stops *)
+        assert (Wi : waiting (Do o k)) by (eapply Ho; eauto).
+        pose proof (step_waiting st o k Wi) as S. pose proof (exec_nstored st o Hs) as N'. destruct (exec apps st o) as [[st' r] e]. cbn in N'.
+        destruct S as [-> [[W' _] | (_ & _ & Hn)]]; [|contradiction]. apply IH. right. split; [exact N'|]. exists kk, w. rewrite app_nil_r. split; [exact Hk|]. split.
+        * exists pw. split; [|exact Aw]. rewrite (nth_replace_other i _ ps w); [exact Hw | congruence].
+        * intros j p Hj Hp. destruct (Nat.eq_dec j i) as [->|Hji].
+          -- rewrite (nth_replace_same i _ ps _ Ei) in Hp. injection Hp as <-. destruct (_ && _); [now constructor | exact W'].
+          -- rewrite (nth_replace_other i _ ps j Hji) in Hp. eapply Ho; eauto.
+  Qed.
 End JoinSched.
 
 Section JoinCopies.
@@ -240,5 +312,17 @@ Section JoinCopies.
   Proof.
     intros Hc sched fuel st rx1 an1 na1 rx2 an2 na2. apply (interleave_join_at_most_one E D apps (jr_devnonce (jr f))).
     left. split; [now apply join_prog_waiting|]. split; [now apply join_prog_waiting | reflexivity].
+  Qed.
+
+  (* any number of handlers (two, three, ...) working on copies of one join-request, any schedule *)
+  Theorem concurrent_join_copies_any_number cfg f :
+    cfg_disable_nonce_check cfg = false ->
+    forall (copies : list (rxpacket * list N * N)) sched fuel st,
+      (length (downs (snd (interleaveN apps sched fuel st
+                             (map (fun c => join_prog E D cfg f (fst (fst c)) (snd (fst c)) (snd c)) copies) []))) <= 1)%nat.
+  Proof.
+    intros Hc copies sched fuel st. apply (interleaveN_join_at_most_one E D apps (jr_devnonce (jr f))).
+    left. split; [|reflexivity]. apply Forall_forall. intros p Hin. apply in_map_iff in Hin. destruct Hin as (c & <- & _).
+    now apply join_prog_waiting.
   Qed.
 End JoinCopies.
